@@ -139,3 +139,14 @@ func verifInt64Cohort(x, x2 Decimal) (a int64, aok bool, b int64, bok bool) {
 	b, bok = x2.Int64()
 	return a, aok, b, bok
 }
+
+// verifMinMax: Min and Max compared with both operands.
+func verifMinMax(x, y Decimal) (mn, mx Decimal, a, b, c, d CmpResult) {
+	mn = Min(x, y)
+	mx = Max(x, y)
+	a = mn.Cmp(x)
+	b = mn.Cmp(y)
+	c = mx.Cmp(x)
+	d = mx.Cmp(y)
+	return mn, mx, a, b, c, d
+}
